@@ -269,7 +269,7 @@ func runC05_1(c *core.Ctx) {
 		if !isOwned || !a.in[fa.Fn] {
 			continue
 		}
-		site := core.SSAName(fa.Fn)
+		site := core.SSAHostName(fa.Fn)
 		construct := fa.Kind.String() + " of " + label
 		top := core.SSAName(core.EnclosingTop(fa.Fn))
 		switch {
@@ -325,10 +325,10 @@ func runC05_2(c *core.Ctx) {
 	for _, f := range fields {
 		label := fieldLabel(c, f)
 		atomicOnly(c, f, label, func(fa core.FieldAccess) string {
-			if label == "connMatrix.connCounts" && core.SSAName(fa.Fn) == delConn && fa.Kind == core.AccRead {
+			if label == "connMatrix.connCounts" && core.SSAHostName(fa.Fn) == delConn && fa.Kind == core.AccRead {
 				return "single-writer read: delConn runs only on the owning loop, which is the only writer of its own counters (C05.1 shows delConn is not reachable off-loop)"
 			}
-			if label == "connMatrix.connCounts" && core.SSAName(fa.Fn) == "(*gnet.connMatrix).loadCount" && fa.Kind == core.AccAddr {
+			if label == "connMatrix.connCounts" && core.SSAHostName(fa.Fn) == "(*gnet.connMatrix).loadCount" && fa.Kind == core.AccAddr {
 				return "len() of the counter array (a constant), no element is read"
 			}
 			return ""
@@ -392,7 +392,7 @@ func runC05_3(c *core.Ctx) {
 		if !ok || fa.Kind == core.AccRead {
 			continue
 		}
-		site := core.SSAName(fa.Fn)
+		site := core.SSAHostName(fa.Fn)
 		construct := fa.Kind.String() + " of " + label
 		switch {
 		case fa.Kind == core.AccWrite && isFresh(fa.Base):
@@ -443,7 +443,7 @@ func runC05_4(c *core.Ctx) {
 				c.Undecided(f.Name, kind, call.Pos(), "no SSA function for this call site")
 				continue
 			}
-			site := core.SSAName(fn)
+			site := core.SSAHostName(fn)
 			switch {
 			case !a.in[fn]:
 				c.Ok(site, "call of "+kind, call.Pos(), "runs only on an event-loop goroutine")
